@@ -611,7 +611,9 @@ Extra:\n{self.extra_map}
         # always start with the magic and separator
         result = PSBT_MAGIC + PSBT_SEPARATOR
         # tx
-        result += serialize_key_value(PSBT_GLOBAL_UNSIGNED_TX, self.tx_obj.serialize())
+        result += serialize_key_value(
+            PSBT_GLOBAL_UNSIGNED_TX, self.tx_obj.serialize_legacy()
+        )
         # xpubs
         for xpub in sorted(self.hd_pubs.keys()):
             hd_pub = self.hd_pubs[xpub]
